@@ -235,6 +235,36 @@ def gen_consts(trees, menv):
         if not (isinstance(v, frozenset) and all(isinstance(x, str) and len(x) == 1 for x in v)):
             raise TranslationError('_wcparse.%s is not a frozenset of characters' % n)
         out.append('Definition %s : list N := %s.' % (coq_name(n), coq_str(''.join(sorted(v)))))
+    # character classes of the escape regexes: `([<class>]|...)` or `([<class>])`
+    import re as _re
+    try:
+        from re import _parser as _sre
+    except ImportError:  # pragma: no cover
+        import sre_parse as _sre
+
+    def leading_class(text):
+        tree = _sre.parse(text)
+        if len(tree) != 1 or str(tree[0][0]) != 'SUBPATTERN':
+            raise TranslationError('escape regex %r is not a single group' % text)
+        inner = tree[0][1][3]
+        node = inner[0]
+        if str(node[0]) == 'BRANCH':
+            node = node[1][1][0][0]
+        if str(node[0]) != 'IN':
+            raise TranslationError('escape regex %r does not start with a character class' % text)
+        cs = []
+        for kind, val in node[1]:
+            if str(kind) != 'LITERAL':
+                raise TranslationError('escape class of %r is not a list of literals' % text)
+            cs.append(val)
+        return sorted(cs)
+    for n in ('RE_MAGIC_ESCAPE', 'RE_MAGIC', 'RE_WIN_DRIVE_MAGIC'):
+        v = env.get(n)
+        if not (isinstance(v, tuple) and len(v) == 2 and all(isinstance(x, Regex) for x in v)):
+            raise TranslationError('_wcparse.%s is not a pair of compiled regexes' % n)
+        a, b = leading_class(v[0].text), leading_class(v[1].text)
+        out.append('Definition %s_class_s : list N := %s.' % (n, coq_str(''.join(chr(c) for c in a))))
+        out.append('Definition %s_class_b : list N := %s.' % (n, coq_str(bytes(b))))
     out.append('End Sets.')
     out.append('')
     # regex constants: source text (pins hand-modelled scanners)
